@@ -23,6 +23,9 @@ def out_r(res, args, ctx):
     return {"reads": list(ctx.log), "exits": list(ctx.exits), "result": res}
 
 
+# dependency function with a KNOWN non-canonical semantics (reduces its four limbs mod r, accepts every input): a decoder built on it
+# cannot be the canonical field decoder the format contract demands
+CONTRACTS["BlsScalar::from_raw"] = lambda it, recv, a: VOpaque("BlsScalar::from_raw", list(a))
 CONTRACTS[".write"] = lambda it, recv, a: (it.ctx.event("write", a[0]), UNIT)[1]
 CONTRACTS[".to_bytes"] = lambda it, recv, a: VOpaque("to_bytes", [recv])
 
